@@ -84,6 +84,9 @@ type EPConf struct {
 	// certificate are appended to the first certificate's chain (a Certificate message above the record limit).
 	OuterPMTU int `json:"outer_pmtu,omitempty"`
 	ChainPad  int `json:"chain_pad,omitempty"`
+	// ShortRand: Config.Rand hands out at most 3 bytes per Read call (which an io.Reader may do) and counts
+	// what it handed out in Env.RandBytes[name]
+	ShortRand bool `json:"short_rand,omitempty"`
 	// WrapKeys counts private-key operations through wrappers.
 	WrapKeys bool `json:"wrap_keys,omitempty"`
 }
@@ -94,10 +97,12 @@ type Env struct {
 	TCaches map[string]tlcp.SessionCache
 	DCaches map[string]dtlcp.SessionCache
 	KeyOps  *KeyOps
+	// RandBytes counts, per endpoint name, the bytes a ShortRand reader handed out
+	RandBytes map[string]*int
 }
 
 func NewEnv(w *World) *Env {
-	return &Env{W: w, TCaches: map[string]tlcp.SessionCache{}, DCaches: map[string]dtlcp.SessionCache{}, KeyOps: &KeyOps{}}
+	return &Env{W: w, TCaches: map[string]tlcp.SessionCache{}, DCaches: map[string]dtlcp.SessionCache{}, KeyOps: &KeyOps{}, RandBytes: map[string]*int{}}
 }
 
 // ConfigEpoch is the time every endpoint configuration reports through Config.Time (all fixtures are judged at
@@ -105,6 +110,34 @@ func NewEnv(w *World) *Env {
 var ConfigEpoch = time.Date(2030, 1, 1, 0, 0, 0, 0, time.UTC)
 
 func FixedTime() time.Time { return ConfigEpoch }
+
+// shortReader is a legal but awkward io.Reader: never more than 3 bytes per call. Requests of one byte go
+// through unchanged (DRand answers those without advancing, see DRand).
+type shortReader struct {
+	r io.Reader
+	n *int
+}
+
+func (s shortReader) Read(p []byte) (int, error) {
+	if len(p) > 3 {
+		p = p[:3]
+	}
+	n, err := s.r.Read(p)
+	if len(p) > 1 {
+		*s.n += n
+	}
+	return n, err
+}
+
+func (e *EPConf) rand(env *Env, name string) io.Reader {
+	if !e.ShortRand {
+		return env.W.Rand(name)
+	}
+	if env.RandBytes[name] == nil {
+		env.RandBytes[name] = new(int)
+	}
+	return shortReader{env.W.Rand(name), env.RandBytes[name]}
+}
 
 // timeFn gives the Config.Time function of a description: the common date, or 1 January of TimeYear.
 func (e *EPConf) timeFn() func() time.Time {
@@ -142,7 +175,7 @@ func (e *EPConf) key(env *Env, name string) crypto.PrivateKey {
 // BuildTLCP turns the description into a tlcp.Config. name selects the random stream.
 func (e *EPConf) BuildTLCP(env *Env, name string) *tlcp.Config {
 	c := &tlcp.Config{
-		Rand:                        env.W.Rand(name),
+		Rand:                        e.rand(env, name),
 		Time:                        e.timeFn(),
 		CipherSuites:                e.Suites,
 		ClientAuth:                  tlcp.ClientAuthType(e.Auth),
@@ -174,7 +207,7 @@ func (e *EPConf) BuildTLCP(env *Env, name string) *tlcp.Config {
 // BuildDTLCP turns the description into a dtlcp.Config.
 func (e *EPConf) BuildDTLCP(env *Env, name string) *dtlcp.Config {
 	c := &dtlcp.Config{
-		Rand:                      env.W.Rand(name),
+		Rand:                      e.rand(env, name),
 		Time:                      e.timeFn(),
 		CipherSuites:              e.Suites,
 		ClientAuth:                dtlcp.ClientAuthType(e.Auth),
